@@ -228,6 +228,20 @@ Theorem C17_map_chain_live : forall f ch pre_in pre_levels evs v, mwf ch pre_in 
 Proof. exact map_live. Qed.
 Print Assumptions C17_map_chain_live.
 
+(* Run / RunInline (SafeLink): fn is called exactly once - at once when inline, else when the hub has run - and
+   the result then holds what it returned or raised (any exception class); before that it is not ready. *)
+Theorem C17_safelink : forall inline res runs,
+  let s := runfn_run res runs (runfn_call inline res) in
+  (inline = true \/ 0 < runs -> r_ar s = cell_of res /\ r_calls s = 1%Z) /\
+  (inline = false -> runs = 0 -> r_ar s = cempty /\ r_calls s = 0%Z).
+Proof.
+  intros inline res runs s. unfold s. rewrite runfn_spec. split.
+  - intros [->|H]; [cbn; split; reflexivity|].
+    replace (0 <? runs) with true by (symmetry; now apply Nat.ltb_lt). rewrite orb_true_r. split; reflexivity.
+  - intros -> ->. cbn. split; reflexivity.
+Qed.
+Print Assumptions C17_safelink.
+
 (* Non-vacuity: well-formed histories exist and the results are the expected ones. Input 2 is complete at
    call time; 0 then 1 complete; everything succeeds / input 1 fails / WhenAny with a failed pre-completed input. *)
 Example C17_example :
